@@ -92,7 +92,14 @@ class S:
         self.cmd(c)
         self.artefacts["input"], self.artefacts["signed"] = infile, outfile
         p = subprocess.run(c, stdout=subprocess.PIPE, stderr=subprocess.PIPE, timeout=300)
-        return p.returncode, (p.stderr.decode(errors="replace") + p.stdout.decode(errors="replace"))[-600:]
+        text = p.stderr.decode(errors="replace") + p.stdout.decode(errors="replace")
+        if len(text) > 1100:        # a Go panic names the cause at the top and the call chain at the bottom
+            text = text[:600] + "\n[...]\n" + text[-450:]
+        return p.returncode, text
+
+    def refcmd(self, expr, path):
+        """command line that re-runs a Python reference computation on a file (listed in replays beside the tools' command lines)"""
+        self.cmds.append("cd /verif && python3 -c 'import sys; from vlib import c05_ref as ref; d = open(sys.argv[1], \"rb\").read(); print(%s)' %s" % (expr, path))
 
     def tool(self, name, accepted):
         """tally of what an outside implementation / a reference computation said about relic's output"""
@@ -311,6 +318,7 @@ def scen_jar(s, recipe, key, digest, flags=(), remote=False, resign_with=None, s
         if js["verified"]:
             s.check(not unsigned, "jarsigner-unsigned-entries", "jarsigner does not flag %d of %d entries as signed+in manifest, e.g. %r" % (len(unsigned), len(payload), unsigned[:3]))
     # 2. reference re-computation of every digest in MANIFEST.MF and *.SF
+    s.cmds.append("cd /verif && python3 -c 'import sys; from vlib import c05_ref as ref; print(ref.jar_check(sys.argv[1], \"%s\")[1])' %s" % (digest, out))
     try:
         facts, probs = ref.jar_check(out, digest)
     except (ref.RefError, KeyError, zipfile.BadZipFile, UnicodeDecodeError) as e:
@@ -344,7 +352,9 @@ def scen_jar(s, recipe, key, digest, flags=(), remote=False, resign_with=None, s
     s.facts.update(entries=len(payload), algs=facts.get("algs"))
 
 
-def pe_common(s, out_bytes, digest, key, page_hashes, ts=False):
+def pe_common(s, out_bytes, digest, key, page_hashes, ts=False, path=None):
+    if path:
+        s.refcmd('ref.pe_image_hash(d, "%s").hex(), hex(ref.pe_checksum(d))%s' % (digest, ', ref.pe_page_hashes(d, "%s").hex()' % digest if page_hashes else ""), path)
     probs_t, probs = ref.pe_cert_table(out_bytes)
     for sl, d in probs:
         s.check(False, sl, d)
@@ -385,6 +395,18 @@ def scen_pe(s, recipe, key, digest, flags=(), remote=False, resign=False, ts=Fal
     out = env.outpath(".exe")
     rc, txt = s.sign(key, src, out, sigtype="pe-coff", digest=digest, flags=flags, remote=remote, conf=env.ts_conf if ts else None)
     if rc != 0:
+        try:
+            L0 = ref.pe_layout(open(src, "rb").read())
+            big_hdr = L0["size_of_headers"] > ref.pe_page_size(L0["machine"])
+        except (ref.RefError, struct.error, KeyError):
+            L0, big_hdr = None, False
+        if big_hdr and "--page-hashes" in flags and not remote and "panic" in txt and "addPageHash" in txt:
+            # the specification side is defined for this case (signtool /ph, osslsigncode: headers of a page or more are hashed without padding)
+            s.evals += 1
+            return s.problem("C05:spec:pe:page-hashes-panic-headers-exceed-page",
+                             "relic sign --page-hashes crashes (slice bounds out of range in authenticode.addPageHash: needzero = pageSize - SizeOfHeaders < 0) on a well-formed image whose "
+                             "SizeOfHeaders %#x exceeds the %d-byte page (%d sections, FileAlignment %#x; without --page-hashes the same image is signed and its image hash agrees with the reference); relic says: %s" %
+                             (L0["size_of_headers"], ref.pe_page_size(L0["machine"]), len(L0["sections"]), L0["file_align"], txt[:200].replace("\n", " | ")))
         return s.problem("C05:harness:sign-failed:pe", "relic sign failed on a well-formed PE image: " + txt, found=False)
     if resign:
         out2 = env.outpath(".exe")
@@ -400,7 +422,7 @@ def scen_pe(s, recipe, key, digest, flags=(), remote=False, resign=False, ts=Fal
         body_same = d[:L["cksum_off"]] == orig[:L["cksum_off"]] and d[L["cksum_off"] + 4:L["dd4_off"]] == orig[L["cksum_off"] + 4:L["dd4_off"]] and \
             d[L["dd4_off"] + 8:len(orig)] == orig[L["dd4_off"] + 8:]
         s.check(body_same, "image-bytes-changed", "bytes other than CheckSum / certificate-table entry / appended table differ from the input")
-    pe_common(s, d, digest, key, "--page-hashes" in flags, ts)
+    pe_common(s, d, digest, key, "--page-hashes" in flags, ts, path=out)
     s.distinct.add(("pe", recipe, digest, env.kit.keys[key]["type"], tuple(flags), remote, resign))
 
 
@@ -431,6 +453,7 @@ def scen_cab(s, recipe, key, digest, remote=False, resign=False, ts=False):
         s.check((c["setID"], c["iCabinet"], c["nfiles"], c["nfolders"], c["reserved"][1:]) == (co["setID"], co["iCabinet"], co["nfiles"], co["nfolders"], co["reserved"][1:]), "header-fields-changed",
                 "setID/iCabinet/counts/reserved fields changed by signing")
         want = ref.cab_digest(d, digest)
+        s.refcmd('ref.cab_digest(d, "%s").hex()' % digest, out)
     except (ref.RefError, struct.error, ValueError, IndexError) as e:
         s.check(False, "reference-reader-fails", "reference CAB reader cannot process the signed cabinet: %r" % e)
         return
@@ -455,6 +478,7 @@ def scen_msi(s, recipe, key, digest, flags=(), remote=False, resign=False, ts=Fa
             return s.problem("C05:harness:sign-failed:msi", "re-signing failed: " + txt, found=False)
         out = out2
     try:
+        s.refcmd('(lambda c: (ref.msi_prehash(c, "%s").hex(), ref.msi_digest(c, "%s", %s).hex()))(ref.CFB(d))' % (digest, digest, 'ref.msi_prehash(ref.CFB(d), "%s")' % digest if "--no-extended-sig" not in flags else "None"), out)
         cfb = ref.CFB(open(out, "rb").read())
         cfo = ref.CFB(open(src, "rb").read())
         root = cfb.entries[0]
@@ -510,6 +534,7 @@ def scen_apk(s, recipe, key, digest, remote=False, v1_first=False):
     s.check([i for i, _ in sg["digests"]] == [want_id] and [i for i, _ in sg["signatures"]] == [want_id], "v2-algorithm-ids",
             "digest ids %s, signature ids %s, expected [%#x]" % ([hex(i) for i, _ in sg["digests"]], [hex(i) for i, _ in sg["signatures"]], want_id))
     want = ref.apk_v2_digest(d, digest, info)
+    s.refcmd('ref.apk_v2_digest(d, "%s", ref.apk_v2_parse(d)).hex()' % digest, out)
     got = sg["digests"][0][1] if sg["digests"] else b""
     s.tool("reference: APK v2 chunked digest", got == want)
     s.check(got == want, "v2-digest-mismatch", "v2 digest in the signature %s != reference chunked digest %s (contents %d bytes, CD %d bytes)" %
@@ -1245,6 +1270,9 @@ def matrix(tier, seed=1):
     add("pe", recipe="fixture:ClassLibrary1.dll", key="rsa2048", digest="sha256", flags=("--page-hashes",), remote=True)
     add("pe", recipe="pe:plus=1,sizes=0x200/0x400/0x1200", key="p256", digest="sha256", remote=True)
     add("pe", recipe="pe:dll-overlay=5", key="rsa2048", digest="sha256", resign=True)
+    many = "pe:plus=0,sizes=" + "/".join(["0x200"] * 100)      # 100 sections: SizeOfHeaders 0x1200 exceeds one page
+    add("pe", recipe=many, key="rsa2048", digest="sha256")
+    add("pe", recipe=many, key="p256", digest="sha256", flags=("--page-hashes",))
     add("pe", recipe="pe:plus=0,sizes=0x600/0/0x200,overlay=17", key="p256", digest="sha256", flags=("--page-hashes",), resign=True)
     # ---- CAB
     cab_inputs = ["fixture:dummy.cab", "cab:files=1,size=10", "cab:files=4,size=40000,folders=2", "cab:files=3,size=5,setid=0xffff,reserved=0x11223344/0x55667788/0x99aabbcc",
@@ -1520,6 +1548,25 @@ def borrowed_proofs(ctx, frag):
     return frag
 
 
+def alt_fill_generated(ctx):
+    """isolated mode (VERIF_REPO=<scratch worktree>) only: the private Coq tree starts without Generated/*.v, but the coq_makefile
+    dependency scan (.Makefile.d) needs every file of _CoqProject to exist before ANY target can be built.  The generated files of
+    units this check does not use are copied from /verif/coq/Generated (they only have to exist); the ones it does use are
+    regenerated from the repository under test by srcgen (borrowed_proofs, the format modules' prepare)."""
+    from vlib import common
+    if not common.ALT:
+        return
+    src = os.path.join(common.VERIF, "coq", "Generated")
+    dst = os.path.join(common.COQ, "Generated")
+    os.makedirs(dst, exist_ok=True)
+    for line in open(os.path.join(common.COQ, "_CoqProject")):
+        line = line.strip()
+        if line.startswith("Generated/") and line.endswith(".v"):
+            fn = line.split("/", 1)[1]
+            if not os.path.exists(os.path.join(dst, fn)) and os.path.exists(os.path.join(src, fn)):
+                shutil.copyfile(os.path.join(src, fn), os.path.join(dst, fn))
+
+
 def run(ctx, replay=None):
     from vlib.common import OUT
     rdir = os.path.join(OUT, "replay", "C05")
@@ -1528,6 +1575,7 @@ def run(ctx, replay=None):
         for fn in os.listdir(rdir):
             q = os.path.join(rdir, fn)
             shutil.rmtree(q, ignore_errors=True) if os.path.isdir(q) else os.unlink(q)
+    alt_fill_generated(ctx)
     frag, units = formats.proof_part(ctx)
     frag = borrowed_proofs(ctx, frag)
     kit = e2e.Kit(ctx, with_server=True)
